@@ -104,6 +104,20 @@ def run(ctx: Check, tree: Tree) -> None:
     fn = locate_prefactor_function(tree)
     rd = RD(fn.node)
     loops = node_loops(fn)
+    if not loops:
+        # no per-node decision at all: whatever is returned cannot know which nodes were flipped
+        n_ret = 0
+        for ret, _ in rd.returns:
+            if ret.value is None or (isinstance(ret.value, ast.Constant) and ret.value.value is None):
+                continue
+            n_ret += 1
+            ctx.violation("R-DEPENDS", f"{fn.qual}::return {unparse(ret.value)}", tree.loc(ret),
+                          f"{fn.qual}: `{unparse(ret)}` is computed without looking at the individual nodes of the chain (no loop over transition.topology.nodes)",
+                          "a value computed from the whole transition (the product over ALL nodes) cannot tell which node was flipped: for two parity-constrained nodes of unlike eta of which one is flipped the chain gets the wrong sign")
+        if not n_ret:
+            raise AnalysisError(f"{fn.qual}: no loop over the nodes and no non-None return")
+        ctx.section(check_partner_suffix, ctx, tree)
+        return
     if len(loops) != 1:
         raise AnalysisError(f"{fn.qual}: expected one loop over transition.topology.nodes, found {len(loops)}")
     loop = loops[0]
